@@ -64,25 +64,25 @@ CHECKS.update({
 NOT_YET = {}
 # dimensions added after the texts above were written (rounds h-k of the seeded changes); appended to the level text
 EXTRA = {
- "C01": " Also: names without labels (the root name as owner, question and rdata name).",
- "C02": " Also: shared name targets that do NOT decode (label runs and pointer runs re-read by hundreds of records; per-entry work budget), and datagrams of 1000..65507 bytes through the real listener (oversize ones must be dropped unread at any log level). Every execution runs under a watchdog: a decoder that does not terminate is a violation.",
+ "C01": " Also: names without labels (the root name as owner, question and rdata name). Text that is not in Unicode normalisation form C has to come back as spelled.",
+ "C02": " Also: shared name targets that do NOT decode (label runs and pointer runs re-read by hundreds of records; per-entry work budget), and datagrams of 1000..65507 bytes through the real listener (oversize ones must be dropped unread at any log level). Every execution runs under a watchdog: a decoder that does not terminate is a violation. Two datagrams in flight at once (the first constructed and put aside unread, as the listener does with truncated queries, the second constructed, then both read): all ordered pairs of a set of valid datagrams x three reading orders.",
  "C03": " Also: description objects unregistered, changed and registered again (they and the contents of the record memos are part of the canonical state), descriptions without a host name, ANY questions for the type enumeration name.",
- "C04": " Also: a search with the browsed types (and the pointers' owner names) spelled with capitals.",
- "C06": " A listener registered during the first round is owed exactly one completion call.",
- "C07": " Also: browsers started over pointers cached for 40 and 65 minutes, updates while an answer waits under the one-second protection (capitals, in-place and new-object updates, port and address changes, a late browser on a third host), re-registration of a changed description object.",
- "C08": " Also: registries reached by moving the other service between host names, an ordinary and a protected answer pending together, three services on one host name with an update and two withdrawals under a protected answer.",
+ "C04": " Also: a search with the browsed types (and the pointers' owner names) spelled with capitals. Pointers of a class other than IN; a browser for the other type started while a pointer has run out but is not purged.",
+ "C06": " A listener registered during the first round is owed exactly one completion call. Datagrams holding several flush-marked record sets, most of them for names the cache has never seen.",
+ "C07": " Also: browsers started over pointers cached for 40 and 65 minutes, updates while an answer waits under the one-second protection (capitals, in-place and new-object updates, port and address changes, a late browser on a third host), re-registration of a changed description object. Also: the browsed type spelled in other letter case than the offering host spells it, a description changed and changed back at once, browsers started right after a cached pointer ran out.",
+ "C08": " Also: registries reached by moving the other service between host names, an ordinary and a protected answer pending together, three services on one host name with an update and two withdrawals under a protected answer. Also: the synchronous update_service followed at once by unregister_service, and withdrawals 0..460 ms after an async register/update whose announcement task is not awaited.",
  "C09": " Also: the same name registered twice with capitals, sequentially and while the first registration is still probing; the SRV records announced for the name are compared.",
- "C10": " Also: a companion browser of the same instance asking the shared type in the same instant, and a neighbour's query (the instance offers the browsed type) right before a refresh is due.",
- "C11": " Also: IPv4-mapped sources on IPv6 sockets, IPv6 sources of another zone than the socket's own (full 4-tuple compared), the IPv6 address of a host that has one, a root-name question in a legacy echo, one question asked twice with different QU bits.",
- "C12": " Also: multi-question queries of which the host can answer one, the IPv6 address of a host that has one, an update of another service while the answer waits.",
- "C13": " Also: a question heard twice, a heard known answer that this instance only holds past half its TTL, lookups repeated on one object.",
+ "C10": " Also: a companion browser of the same instance asking the shared type in the same instant, and a neighbour's query (the instance offers the browsed type) right before a refresh is due. Also: the event loop stalled across a refresh instant (late wake-ups).",
+ "C11": " Also: IPv4-mapped sources on IPv6 sockets, IPv6 sources of another zone than the socket's own (full 4-tuple compared), the IPv6 address of a host that has one, a root-name question in a legacy echo, one question asked twice with different QU bits. Also: a truncated query from port 5353 of the same address pending when a legacy query arrives; probes that share their datagram with an ordinary question and known answers.",
+ "C12": " Also: multi-question queries of which the host can answer one, the IPv6 address of a host that has one, an update of another service while the answer waits. Also: truncated trains ended by a probe; a cooperating responder's sighting during the hold while another querier's protected answer already waits.",
+ "C13": " Also: a question heard twice, a heard known answer that this instance only holds past half its TTL, lookups repeated on one object. Also: a non-qualifying hearing between two askers, known answers that belong to a second question (other name; same name and other type), questions heard from an ephemeral source port.",
  "C14": " Also: the sender's path - messages go through Zeroconf.async_send of a real instance and the wire trace must equal packets(), incl. datagrams of exactly 8966 bytes. Executions run under a watchdog (a builder that does not terminate is a violation).",
- "C15": " Also: five-query valid traffic schedules before the canary, every echoed 16-bit field (id, type, class, question count) swept over 0..259 and powers of two. Executions run under a watchdog (a decoder spinning inside datagram_received is a violation).",
+ "C15": " Also: five-query valid traffic schedules before the canary, every echoed 16-bit field (id, type, class, question count) swept over 0..259 and powers of two. Executions run under a watchdog (a decoder spinning inside datagram_received is a violation). Also: announcements spelling the browsed type in other letter case, labels containing the separator, the canary instance's own history (announce, goodbye, both in one datagram) with the browser's last word as oracle, application listeners that register listeners from their callbacks.",
  "C16": " Also: responses that repeat a QU question, responses with the TC bit, a query with a cache-flush known answer, an application callback that raises once.",
- "C17": " Also: EAGAIN on the k-th / all goodbye datagrams (transport write buffer: close() delivers it, abort() drops it), a first close cancelled after k = 0..39 loop iterations and requested again, the loop's thread blocked for 300 / 3000 ms right after close returned, close() again after the event loop itself was closed.",
- "C18": " Also: names whose lower-cased and case-folded spellings differ, and the convenience entry points Zeroconf.async_get_service_info / AsyncZeroconf.async_get_service_info.",
- "C19": " The independent parser tells 'key=' (empty value) from 'key' (no value).",
- "C20": " Also: the cache-flush rule (a flush-bit record displaces cached records of its name, type and class in any spelling that are not the same record).",
+ "C17": " Also: EAGAIN on the k-th / all goodbye datagrams (transport write buffer: close() delivers it, abort() drops it), a first close cancelled after k = 0..39 loop iterations and requested again, the loop's thread blocked for 300 / 3000 ms right after close returned, close() again after the event loop itself was closed. Also: the same listener object registered twice through the synchronous API (browser threads and record listeners left after close), services withdrawn shortly before close with the goodbye tasks not awaited.",
+ "C18": " Also: names whose lower-cased and case-folded spellings differ, and the convenience entry points Zeroconf.async_get_service_info / AsyncZeroconf.async_get_service_info. Also: a goodbye for exactly the expired copy a pending lookup is waiting to replace; record bundles arriving after the lookup's last query.",
+ "C19": " The independent parser tells 'key=' (empty value) from 'key' (no value). Two reader threads on one description that still holds undecoded TXT bytes: every schedule with one preemption (sys.settrace parks reader A before each line it executes in the library while reader B runs to completion).",
+ "C20": " Also: the cache-flush rule (a flush-bit record displaces cached records of its name, type and class in any spelling that are not the same record). Questions are also run through the duplicate-question history (asked 500 ms ago iff the same question); TXT rdata of zero length and of a single zero octet are different rdata.",
 }
 for _k, _v in EXTRA.items():
     _ref, _text, _note = CHECKS[_k]
